@@ -97,6 +97,8 @@ def run(tier, seed, work, replay):
         sig = {"action": ev["ev"], "guards": d["guards"]}
         if ev["ev"] == "Request":
             sig["route"] = ev["args"]["route"]
+            if "certreq" in ev["args"]:
+                sig["certreq"] = ev["args"]["certreq"]
         elif ev["ev"] == "Inject":
             sig.update({"pass": ev["args"]["pass"], "cert": ev["args"]["cert"], "tls": ev["args"]["tls"]})
         # sequential table rows are deterministic; concurrent runs are re-observed by the next seed: report as seen
